@@ -68,8 +68,12 @@ def generate(rng, tier, index):
         ks = [{"abs": 0}, {"abs": 1}, {"abs": 2}, {"fromend": 1}, {"fromend": 0}]
         ks += [{"struct": rng.random()} for _ in range(n_k // 3)]
         ks += [{"multibyte": rng.random()}, {"multibyte": rng.random()}]
+        ks += [{"outer": rng.random()} for _ in range(3)]
         ks += [{"frac": rng.random()} for _ in range(n_k - len(ks))]
         return {"scenario": "S0", "world": wp, "ks": ks,
+                # the planted document is the one the TOOL writes (adjacent locations, half of
+                # the time) - the two producers need not share a layout
+                "producer": rng.choice(["option", "cli"]),
                 "location": rng.choice(["user", "user", "adjacent", "both"]),
                 "image": rng.randrange(len(wp["images"])),
                 "others": rng.choice(["none", "complete"])}
@@ -83,6 +87,7 @@ def generate(rng, tier, index):
         plan["at"] = rng.choice([{"abs": 0}, {"abs": 1}, {"fromend": 1}, {"fromend": 0},
                                  "close", {"frac": rng.random()}, {"frac": rng.random()},
                                  {"struct": rng.random()}, {"multibyte": rng.random()},
+                                 {"outer": rng.random()}, {"outer": rng.random()},
                                  {"event": rng.randrange(0, 8)}, {"event": rng.randrange(0, 40)}])
         if "event" in plan["at"]:
             # crash just before the n-th disk-mutating operation of the writer (mkdir, open, each
@@ -182,7 +187,40 @@ def structural_offsets(doc):
     for m in re.finditer(rb"null|true|false|NaN|Infinity", doc):
         out.update(range(m.start() + 1, m.end()))
     out.update(multibyte_offsets(doc))
+    out.update(outer_offsets(doc))
     return sorted(out)
+
+
+def outer_offsets(doc):
+    """prefix lengths at which a document made of several self-contained pieces would look
+    complete to a reader without an end marker: just before / after every line break, and right
+    after every value that closes at nesting depth <= 3 (and after the comma that follows it)"""
+    out = set()
+    depth = 0
+    in_str = esc = False
+    for i, ch in enumerate(doc):
+        c = chr(ch)
+        if c == "\n":
+            out.update((i, i + 1))
+        if in_str:
+            if esc:
+                esc = False
+            elif c == "\\":
+                esc = True
+            elif c == '"':
+                in_str = False
+            continue
+        if c == '"':
+            in_str = True
+        elif c in "{[":
+            depth += 1
+        elif c in "}]":
+            depth -= 1
+            if depth <= 3:
+                out.add(i + 1)
+                if doc[i + 1:i + 2] == b",":
+                    out.add(i + 2)
+    return sorted(k for k in out if 0 < k < len(doc))
 
 
 def multibyte_offsets(doc):
@@ -206,6 +244,15 @@ def resolve_k(spec, doc):
         if mo:
             return mo[int(spec["multibyte"] * len(mo)) % len(mo)]
         spec = {"struct": spec["multibyte"]}
+    if "outer" in spec:
+        oo = outer_offsets(doc)
+        if oo:
+            # line breaks first (a line-oriented document has few of them among many brackets)
+            nl = [k for k in oo if doc[k - 1:k] == b"\n" or doc[k:k + 1] == b"\n"]
+            pool = nl if nl and spec["outer"] < 0.5 else oo
+            x = spec["outer"] * 2 % 1.0
+            return pool[int(x * len(pool)) % len(pool)]
+        spec = {"struct": spec["outer"]}
     if "struct" in spec:
         so = structural_offsets(doc)
         return so[int(spec["struct"] * len(so)) % len(so)] if so else 0
@@ -238,6 +285,7 @@ class Ctx:
         self.violations = []
         self.keys = []
         self.stats = {}
+        self.cli_docs = {}
         self.evaluations = 0
         self.stale_docs = None
         self.kind = "local" if self.w.backend in world.LOCAL else "simfs"
@@ -319,6 +367,21 @@ def _produce_docs(c):
     return docs, hashdir
 
 
+def _produce_cli_doc(c, img):
+    """the document the TOOL writes for one image (a complete, undisturbed tool run); None when
+    the tool does not get that far on this product path"""
+    try:
+        rc = c.w.cli(img, rpc=c.plan.get("cli_rpc"))
+    except SimAbort:
+        raise
+    except Exception:  # noqa: BLE001
+        rc = 1
+    doc = c.w.adjacent().get(img + ".index") if rc == 0 else None
+    c.w.clear_adjacent()
+    c.bump("cli-doc-produced" if doc else "cli-doc-unavailable")
+    return doc
+
+
 def _place(c, location, img, data, hashdir):
     if location in ("user", "both"):
         c.w.plant_user(hashdir, img, data)
@@ -338,6 +401,9 @@ def run_s0(c, ref):
     _clear(c)
     img = c.prod.images[plan["image"]]
     doc = docs[img]
+    if plan.get("producer") == "cli" and plan["location"] in ("adjacent", "both") \
+            and c.kind == "local" and not plan.get("exhaustive"):
+        doc = _produce_cli_doc(c, img) or doc
     ks = []
     for spec in plan["ks"]:
         if "shard" in spec:
@@ -445,6 +511,9 @@ def run_s1_s2(c, ref):
     plan = c.plan
     c.stale_docs = _stale_docs(c) if plan.get("preexisting") == "stale" else None
     docs, hashdir = _produce_docs(c)
+    if plan["writer"] == "cli":
+        img = c.prod.images[plan["cli_image"]]
+        c.cli_docs[img] = _produce_cli_doc(c, img)
     bad_ats = []
     for at in plan.get("ats") or [plan["at"]]:
         n_before = len(c.violations)
@@ -478,6 +547,9 @@ def _run_s1_s2_once(c, ref, docs, hashdir, at):
     if writer == "cli":
         img = c.prod.images[plan["cli_image"]]
         match, nth = ".index", 0
+        if c.cli_docs.get(img):
+            # byte offsets are resolved against what this writer itself writes
+            docs = dict(docs, **{img: c.cli_docs[img]})
     else:
         img = sorted(docs)[plan["nth"] % len(docs)]
         match, nth = "xdg/", plan["nth"]
